@@ -37,6 +37,7 @@ structure VSt where
   sDroppable : List Nat := []               -- query requests: dropped without reaching user code when they arrive after the expiry
   sShutdownBegun : Bool := false
   sStopped : Bool := false
+  sCycleOpen : Bool := false                -- "sv.init" seen, "sv.starting" of the same cycle not yet
   forcedWakes : Nat := 0
   steps : Nat := 0
 
@@ -63,7 +64,10 @@ def wstate (v : VSt) (i : Nat) : Option WState := v.m.workers[i]?
 /-- model-side handling of one note -/
 def modelNote (v : VSt) (goid : Nat) (point : String) (wid : Nat) (n : Nat) : VSt :=
   match point with
-  | "sv.starting" => apply v (.serve n)
+  -- the queue state is re-initialised at "sv.init" (a note made where serve resets it, under the
+  -- mutex); "sv.starting" (before the workers are started) only starts the cycle for traces without it
+  | "sv.init" => apply v (.serve n)
+  | "sv.starting" => if v.m.phase = .started ∧ v.m.workers.all (· = .idle) then v else apply v (.serve n)
   | "sv.started" => v
   | "h.submit" => { v with cur := aset v.cur goid n, widOfCb := aset v.widOfCb n wid }
   | "s.request" | "s.qrequest" | "s.qexpire" => { v with cur := aset v.cur goid n, widOfCb := aset v.widOfCb n wid }
@@ -151,20 +155,22 @@ def specNote (v : VSt) (goid : Nat) (point : String) (wid : Nat) (n : Nat) : VSt
     let v := if g ≠ 0 then
         { v with sQueue := aset v.sQueue g (((aget v.sQueue g).getD []).dropWhile (fun h => h ≠ n ∧ v.sDroppable.contains h)) }
       else v
-    if v.sStopped then (v, s!"?viol:callback-{n}-started-after-shutdown-returned")
-    else if v.sStarted.contains n then (v, s!"?viol:callback-{n}-started-twice")
-    else if g ≠ 0 ∧ v.sRunning.any (·.1 = g) then (v, s!"?viol:two-callbacks-of-group-{g}-running")
+    -- whatever the verdict, the callback is running from now on (later overlaps must still be seen)
+    let vr := { v with sRunning := v.sRunning ++ [(g, n)], sStarted := v.sStarted ++ [n] }
+    if v.sStopped then (vr, s!"?viol:callback-{n}-started-after-shutdown-returned")
+    else if v.sStarted.contains n then (vr, s!"?viol:callback-{n}-started-twice")
+    else if g ≠ 0 ∧ v.sRunning.any (·.1 = g) then (vr, s!"?viol:two-callbacks-of-group-{g}-running")
     else
       let q := (aget v.sQueue g).getD []
       if g ≠ 0 then
         match q with
         | h :: t =>
-          if h = n then ({ v with sQueue := aset v.sQueue g t, sRunning := v.sRunning ++ [(g, n)], sStarted := v.sStarted ++ [n] }, "?ok")
-          else (v, s!"?viol:group-{g}-started-callback-{n}-before-{h}")
-        | [] => (v, s!"?viol:callback-{n}-started-but-never-accepted")
+          if h = n then ({ vr with sQueue := aset v.sQueue g t }, "?ok")
+          else (vr, s!"?viol:group-{g}-started-callback-{n}-before-{h}")
+        | [] => (vr, s!"?viol:callback-{n}-started-but-never-accepted")
       else
-        if q.contains n then ({ v with sQueue := aset v.sQueue g (q.erase n), sRunning := v.sRunning ++ [(g, n)], sStarted := v.sStarted ++ [n] }, "?ok")
-        else (v, s!"?viol:callback-{n}-started-but-never-accepted")
+        if q.contains n then ({ vr with sQueue := aset v.sQueue g (q.erase n) }, "?ok")
+        else (vr, s!"?viol:callback-{n}-started-but-never-accepted")
   | "h.cbend" => ({ v with sRunning := v.sRunning.filter (·.2 ≠ n) }, "?ok")
   | "h.shutdown.begin" => ({ v with sShutdownBegun := true }, "?ok")
   | "h.shutdown.end" =>
@@ -174,11 +180,14 @@ def specNote (v : VSt) (goid : Nat) (point : String) (wid : Nat) (n : Nat) : VSt
   | "h.serve.hung" => (v, "?viol:serve-did-not-return")
   | "h.serve.early" => (v, "?viol:serve-returned-while-a-callback-was-still-running-shutdown-not-drained")
   | "h.panic" => (v, "?viol:api-call-panicked")
+  | "h.serve.panic" => (v, "?viol:serve-panicked-while-shutdown-ran-concurrently")
   | "h.connclosed" => if n = 1 then (v, "?ok") else (v, s!"?viol:connection-closed-{n}-times")
-  | "sv.starting" =>
+  | "sv.init" | "sv.starting" =>
     -- a new cycle; callbacks of the previous cycle that are still running stay on record (a service
-    -- that lets itself be served again before they ended breaks C03, and C01 if one of their groups runs again)
-    ({ v with sStopped := false, sShutdownBegun := false, sQueue := [] },
+    -- that lets itself be served again before they ended breaks C03, and C01 if one of their groups runs again).
+    -- The cycle starts where serve re-initialises the queue ("sv.init"); what is accepted from then on counts.
+    if point = "sv.starting" ∧ v.sCycleOpen then ({ v with sCycleOpen := false }, "?ok") else
+    ({ v with sStopped := false, sShutdownBegun := false, sQueue := [], sCycleOpen := point = "sv.init" },
       if v.sRunning.isEmpty then "?ok" else "?viol:serve-accepted-while-callbacks-of-the-previous-cycle-run-shutdown-not-complete")
   | "h.quiescent" =>
     -- the harness has waited for everything it submitted: nothing may be left behind
@@ -194,7 +203,7 @@ def verdictFor (mode spec : String) (restarted : Bool) : String :=
   let has (w : String) : Bool := (spec.splitOn w).length > 1
   let c01 := has "two-callbacks-of-group"
   let c02 := has "started-twice" || has "-before-" || has "never-accepted" || has "never-started"
-  let c03 := has "shutdown" || has "serve-did-not-return" || has "api-call-panicked" || has "connection-closed"
+  let c03 := has "shutdown" || has "serve-did-not-return" || has "panicked" || has "connection-closed"
   match mode with
   | "pool01" => if c01 then spec else "?ok"
   | "pool02" => if c02 then spec else "?ok"
